@@ -5,6 +5,22 @@ PROOF_NOTE = ("Trusted: Lean 4.33 kernel and the axioms printed per theorem (pro
               "the hand-written model is validated against the C by differential execution (bounded by generator quality), not derived from it; "
               "translator and harness themselves.")
 CHECKS = {
+ "C05": dict(category="translation_validation",
+   text=("Executable Lean models of szddd.c, kwajd.c (headers and the LZH decoder), lzssd.c and mszipd_decompress_kwaj are compared with the implementation on generated well-formed files "
+         "(both SZDD variants, all five KWAJ methods, all 64 header-flag combinations, all four LZH length encodings) and on the shipped fixtures; the implementation is judged against the plan "
+         "(header fields and payload bytes). Kernel-checked so far: the SZDD signature tables extracted from today's source. Round-trip theorems for LZSS/LZH/headers are not proved yet, "
+         "hence not claimed as proof."),
+   note=PROOF_NOTE, technique="differential execution of a Lean model against the implementation + plan oracle; Lean decide over regenerated signature tables"),
+ "C07": dict(category="proof",
+   text=("CAB: theorems, generic over the stream decoders' counting law, that extract never hands more than the declared length to the output (any input, strict or salvage, any cached state) "
+         "and that in strict mode OK implies exactly the declared length; the counting law is proved for stored folders and is an explicit hypothesis for MSZIP/Quantum/LZX. "
+         "CHM and OAB have no theorem yet. Everything is validated by the written-vs-declared oracle on the implementation (well-formed, malformed, fixtures, short writes, salvage) and model agreement."),
+   note=PROOF_NOTE, technique="Lean 4 theorems (case analysis over cabd_extract's phases + induction for the stored decoder) + written/declared/status oracle on the implementation"),
+ "C08": dict(category="proof",
+   text=("CAB: theorem that whenever the cached decoder is not re-usable for a request (other folder, backward seek, dead decoder) extract behaves exactly like a fresh instance. "
+         "Forward re-use needs the decoders' chunking law (not yet proved) and is covered by the oracle: in random histories (repetition, interleaved archives, damaged folders) over CAB sets and CHM files, "
+         "every call is compared with the same member on a fresh decompressor; plus model/implementation agreement per call."),
+   note=PROOF_NOTE, technique="Lean 4 theorem on the cache decision of cabd_extract + history-vs-fresh oracle + differential runs"),
  "C02": dict(category="proof",
    text=("Theorems (all file contents, all parameter settings, all split-block chains): the CAB block reader never reads past d->input and every block it delivers leaves room for "
          "the Quantum trailer byte, against the buffer and limit constants extracted from today's cab.h; array dimensions of the decoder tables are those the models assume. "
